@@ -6,6 +6,8 @@ func (cw *CodeWriter) AddMapping(pos token.Position) {
 	if cw.Mapper == nil {
 		return
 	}
+	// pending white space precedes the token that is about to be written
+	cw.flushPending()
 	cw.Mapper.AddMapping(pos.Line, pos.Column)
 }
 
@@ -13,5 +15,6 @@ func (cw *CodeWriter) AddNamedMapping(sourceLine, sourceColumn int, name string)
 	if cw.Mapper == nil {
 		return
 	}
+	cw.flushPending()
 	cw.Mapper.AddNamedMapping(sourceLine, sourceColumn, name)
 }
